@@ -3,6 +3,7 @@ package main
 import (
 	"fmt"
 	"go/token"
+	"sort"
 	"strings"
 
 	"golang.org/x/tools/go/ssa"
@@ -16,35 +17,49 @@ func init() {
 			filter := p.MustFn("(*vuego.Vue).evalFilter")
 			pipe := p.MustFn("(*vuego.Vue).evalPipe")
 			c.check(p.Cone(pipe)[filter], "pipe interpreter reaches the registry", p.pos(pipe.Pos()), "evalPipe → evalFilter → funcMap", "the pipe interpreter no longer reaches the funcMap lookup")
+			// expression sites, attributed to the role function that owns them (helpers extracted from a position stay with it)
+			type exprSite struct {
+				site  ssa.CallInstruction
+				owner *ssa.Function
+			}
+			byOwner := map[*ssa.Function][]exprSite{}
 			for _, fn := range p.Funcs {
-				if pk := funcPkg(fn); pk == nil || pk.Path() != modPath || fn.Signature.Recv() == nil || typeShort(recvType(fn)) != "*vuego.Vue" {
+				if pk := funcPkg(fn); pk == nil || pk.Path() != modPath {
 					continue
 				}
-				switch fn.Name() {
-				case "evalPipe", "evalSegment", "evalFilter", "resolveArgument", "callFunc":
-					continue // the pipe interpreter itself (its expr segments get `.` bound by the interpreter)
-				}
-				var pipes []ssa.Instruction
 				for _, site := range callsIn(fn) {
-					if calleeName(site.Common()) == "(*vuego.Vue).evalPipe" {
-						pipes = append(pipes, site)
+					n := calleeName(site.Common())
+					if n != "(*vuego.Vue).evalPipe" && n != "(*vuego.ExprEvaluator).Eval" {
+						continue
 					}
+					owner := p.ownerRole(fn)
+					switch owner.Name() {
+					case "evalPipe", "evalSegment", "evalFilter", "resolveArgument", "callFunc":
+						continue // the pipe interpreter itself (its expr segments get `.` bound by the interpreter)
+					}
+					if on := shortName(owner); on == "(*vuego.Vue).evalPipe" || on == "(*vuego.Vue).evalSegment" || on == "(*vuego.Vue).evalFilter" {
+						continue
+					}
+					byOwner[owner] = append(byOwner[owner], exprSite{site, owner})
 				}
-				n := 0
-				for _, site := range callsIn(fn) {
-					switch calleeName(site.Common()) {
+			}
+			for _, owner := range sortedFuncs(funcSetOf(byOwner)) {
+				sites := byOwner[owner]
+				sort.Slice(sites, func(i, j int) bool { return sites[i].site.Pos() < sites[j].site.Pos() })
+				for i, es := range sites {
+					n := i + 1
+					label := strings.TrimPrefix(shortName(owner), "(*vuego.Vue).")
+					switch calleeName(es.site.Common()) {
 					case "(*vuego.Vue).evalPipe":
-						n++
-						c.ok(fmt.Sprintf("%s: expression#%d via evalPipe", strings.TrimPrefix(shortName(fn), "(*vuego.Vue)."), n), p.instrPos(site), "reaches the function registry")
-					case "(*vuego.ExprEvaluator).Eval":
-						n++
+						c.ok(fmt.Sprintf("%s: expression#%d via evalPipe", label, n), p.instrPos(es.site), "reaches the function registry")
+					default:
 						viaPipe := false
-						for _, pp := range pipes {
-							if dominates(pp, site) {
+						for _, other := range sites {
+							if calleeName(other.site.Common()) == "(*vuego.Vue).evalPipe" && other.site.Parent() == es.site.Parent() && dominates(other.site, es.site) {
 								viaPipe = true
 							}
 						}
-						c.check(viaPipe, fmt.Sprintf("%s: expression#%d via Eval", strings.TrimPrefix(shortName(fn), "(*vuego.Vue)."), n), p.instrPos(site), "fallback after the pipe interpreter was tried on the same text", "this position evaluates template text with the bare expression evaluator, whose environment carries no registered functions: a registered function is unavailable here and an unknown function is silently falsy/empty instead of failing the render with an error naming it, unlike in {{ }}")
+						c.check(viaPipe, fmt.Sprintf("%s: expression#%d via Eval", label, n), p.instrPos(es.site), "fallback after the pipe interpreter was tried on the same text", "this position evaluates template text with the bare expression evaluator, whose environment carries no registered functions: a registered function is unavailable here and an unknown function is silently falsy/empty instead of failing the render with an error naming it, unlike in {{ }}")
 					}
 				}
 			}
@@ -83,7 +98,7 @@ func init() {
 					}
 					m++
 					ok, why := errorPropagated(site)
-					c.check(ok, fmt.Sprintf("%s: evalPipe error#%d", strings.TrimPrefix(shortName(fn), "(*vuego.Vue)."), m), p.instrPos(site), "returned to the caller", "an error of the pipe interpreter (unknown function, wrong argument count, failed conversion, error returned by the function) is swallowed here: "+why+"; the position falls back to another strategy and finally binds nil")
+					c.check(ok, fmt.Sprintf("%s: evalPipe error#%d", strings.TrimPrefix(shortName(p.ownerRole(fn)), "(*vuego.Vue)."), m), p.instrPos(site), "returned to the caller", "an error of the pipe interpreter (unknown function, wrong argument count, failed conversion, error returned by the function) is swallowed here: "+why+"; the position falls back to another strategy and finally binds nil")
 				}
 			}
 		},
@@ -291,4 +306,12 @@ func init() {
 			c.check(n > 0, "callFunc: handles variadic functions", p.pos(fn.Pos()), "element type taken from In(k).Elem()", "the reflective call no longer derives the variadic element type")
 		},
 	})
+}
+
+func funcSetOf[T any](m map[*ssa.Function]T) map[*ssa.Function]bool {
+	out := map[*ssa.Function]bool{}
+	for f := range m {
+		out[f] = true
+	}
+	return out
 }
